@@ -580,6 +580,11 @@ pub fn run(seed: u64, n: usize, _tier: &str, w: &mut dyn std::io::Write) {
     for (k, cell) in results.into_iter().enumerate() {
         let h = cell.into_inner().unwrap().expect("history");
         let key = blake3::hash(h.input.coq().as_bytes()).to_hex()[..16].to_string();
-        emit(w, if jobs[k].0 { "sched" } else { "real" }, &Case { input: h.input, output: h.output, violation: h.viol, nontrivial: h.nontrivial, tags: h.tags, key });
+        // a history whose observation window was closed by the wall clock (machine load) before the
+        // worker finished has a truncated event list: the property oracle still applies to what was
+        // seen, but the recorded schedule is not the whole schedule, so it is not run through the model
+        let truncated = h.tags.iter().any(|t| t == "inconclusive_stop_timeout");
+        let stream = match (jobs[k].0, truncated) { (true, false) => "sched", (false, false) => "real", (true, true) => "sched_truncated", (false, true) => "real_truncated" };
+        emit(w, stream, &Case { input: h.input, output: h.output, violation: h.viol, nontrivial: h.nontrivial, tags: h.tags, key });
     }
 }
